@@ -160,4 +160,66 @@ theorem findVars_named (name procName : List Char) (p : Program) :
     · exact allNamed_nil name
   · exact allNamed_nil name
 
+mutual
+  theorem procsInStmt_named (name : List Char) : ∀ s : Stmt, AllNamed name (procsInStmt name s)
+    | .block ss _ => by simp only [procsInStmt]; exact procsInList_named name ss
+    | .call c => by simp only [procsInStmt]; exact allNamed_single c.name
+    | .ifS _ t e _ => by
+      simp only [procsInStmt]
+      exact allNamed_append (procsInOpt_named name t) (procsInOpt_named name e)
+    | .whileS _ b _ => by simp only [procsInStmt]; exact procsInOpt_named name b
+    | .assign _ => by simp only [procsInStmt]; exact allNamed_nil name
+    | .empty _ => by simp only [procsInStmt]; exact allNamed_nil name
+    | .error _ => by simp only [procsInStmt]; exact allNamed_nil name
+  theorem procsInOpt_named (name : List Char) : ∀ s : OptStmt, AllNamed name (procsInOpt name s)
+    | .none => by simp only [procsInOpt]; exact allNamed_nil name
+    | .some s o => by simp only [procsInOpt]; exact allNamed_shift o (procsInStmt_named name s)
+  theorem procsInList_named (name : List Char) : ∀ s : StmtList, AllNamed name (procsInList name s)
+    | .nil => by simp only [procsInList]; exact allNamed_nil name
+    | .cons s o r => by
+      simp only [procsInList]
+      exact allNamed_append (allNamed_shift o (procsInStmt_named name s)) (procsInList_named name r)
+end
+
+/-- … procedures: the declaring name and every call, at any nesting depth. -/
+theorem findProcs_named (name : List Char) (p : Program) : ∀ i ∈ findProcs name p, i.value = name := by
+  unfold findProcs
+  apply allNamed_flatMap
+  intro gd _
+  split
+  · rename_i pd _
+    apply allNamed_shift
+    apply allNamed_append
+    · cases pd.name with
+      | none => exact allNamed_nil name
+      | some n => exact allNamed_single n
+    · exact allNamed_flatMap _ _ (fun s _ => allNamed_shift _ (procsInStmt_named name s.val))
+  · exact allNamed_nil name
+
+/-- … types: the declaring name and every use in type expressions of type declarations,
+    parameters and local variables (through any nesting of `array … of`). -/
+theorem findTypes_named (name : List Char) (p : Program) : ∀ i ∈ findTypes name p, i.value = name := by
+  unfold findTypes
+  apply allNamed_flatMap
+  intro gd _
+  apply allNamed_shift
+  split
+  · rename_i td _
+    apply allNamed_append
+    · cases td.name with
+      | none => exact allNamed_nil name
+      | some n => exact allNamed_single n
+    · cases td.typeExpr.bind identInRefType with
+      | none => exact allNamed_nil name
+      | some i => exact allNamed_single i
+  · rename_i pd _
+    apply allNamed_append
+    · intro i hi
+      simp only [List.mem_filter] at hi
+      simpa using hi.2
+    · intro i hi
+      simp only [List.mem_filter] at hi
+      simpa using hi.2
+  · exact allNamed_nil name
+
 end Spl.C13
